@@ -86,6 +86,39 @@ theorem zip_range_map {β : Type} (g : Nat → β) (V : Nat) :
   rw [List.zip_map_left, List.zip_eq_zipWith, List.zipWith_self, List.map_map]
   rfl
 
+/-! ### the two-index constructor loop -/
+
+theorem laneW_range {β : Type} (dst V : Nat) (g : Nat → β) :
+    laneW dst ((List.range V).map g) = (List.range V).map fun l => (dst + l, g l) := by
+  unfold laneW
+  rw [List.length_map, List.length_range, zip_range_map, List.map_map]
+  rfl
+
+theorem range_split {β : Type} (g : Nat → β) (a N : Nat) (h : a ≤ N) :
+    (List.range a).map g ++ (List.range (N - a)).map (fun x => g (a + x)) = (List.range N).map g := by
+  have h2 : N = a + (N - a) := by omega
+  conv => rhs; rw [h2, List.range_add, List.map_append, List.map_map]
+  rfl
+
+/-- one row of the constructor loop enumerates the columns `0..N-1` once, in order -/
+theorem ctor2_row {β : Type} (V N i : Nat) (hV : 0 < V) (vec : Nat → List β) (sc : Nat → β)
+    (hvec : ∀ j, vec j = (List.range V).map fun l => sc (j + l)) :
+    (forRange 0 (Views.roundDownV N V) V).flatMap (fun j => laneW (i * N + j) (vec j)) ++
+      (forRange (forExit 0 (Views.roundDownV N V) V) N 1).map (fun j => (i * N + j, sc j))
+      = (List.range N).map fun j => (i * N + j, sc j) := by
+  unfold Views.roundDownV
+  have hexit : forExit 0 (N / V * V) V = N / V * V :=
+    forExit_of_dvd hV (Nat.zero_le _) (by simp [Nat.dvd_mul_left])
+  rw [hexit, forRange_blocks _ _ hV, forRange_from_one, List.flatMap_map]
+  have h1 : (List.range (N / V)).flatMap (fun t => laneW (i * N + t * V) (vec (t * V)))
+      = (List.range (N / V * V)).map fun j => (i * N + j, sc j) := by
+    rw [← blocks_eq_range (fun j => (i * N + j, sc j))]
+    congr 1; funext t
+    rw [hvec, laneW_range]
+    simp [Nat.add_assoc]
+  rw [h1, List.map_map]
+  exact range_split (fun j => (i * N + j, sc j)) (N / V * V) N (Nat.div_mul_le_self _ _)
+
 /-! ### stores -/
 
 theorem applyWrites_range {β : Type} (g : Nat → β) (n : Nat) (m : Nat → β) (p : Nat) :
